@@ -1,6 +1,7 @@
 package props
 
 import (
+	"go/token"
 	"go/ast"
 	"go/types"
 
@@ -24,6 +25,44 @@ func newFieldEffects(p *core.Program) *fieldEffects {
 		info := fd.Pkg.TypesInfo
 		r, w := map[*types.Var]bool{}, map[*types.Var]bool{}
 		lhs := map[ast.Expr]bool{}
+		var ld *core.LocalDefs
+		// freshLocal: the selector is rooted at a local that only ever holds objects made in
+		// this function (&T{…}, new(T)): filling it in changes no object that existed before
+		freshLocal := func(sel *ast.SelectorExpr) bool {
+			id, ok := ast.Unparen(sel.X).(*ast.Ident)
+			if !ok {
+				return false
+			}
+			v, _ := info.Uses[id].(*types.Var)
+			if v == nil || v.IsField() || v.Parent() == nil || (v.Pkg() != nil && v.Parent() == v.Pkg().Scope()) {
+				return false
+			}
+			if ld == nil {
+				ld = core.NewLocalDefs(info, fd.Decl.Body)
+			}
+			ds := ld.All(v)
+			if len(ds) == 0 {
+				return false
+			}
+			for _, d := range ds {
+				if d.RHS == nil || d.N != 1 {
+					return false
+				}
+				e := ast.Unparen(d.RHS)
+				if u, ok := e.(*ast.UnaryExpr); ok && u.Op == token.AND {
+					if _, isLit := ast.Unparen(u.X).(*ast.CompositeLit); isLit {
+						continue
+					}
+				}
+				if call, ok := e.(*ast.CallExpr); ok {
+					if fid, ok := call.Fun.(*ast.Ident); ok && fid.Name == "new" {
+						continue
+					}
+				}
+				return false
+			}
+			return true
+		}
 		ast.Inspect(fd.Decl.Body, func(n ast.Node) bool {
 			switch x := n.(type) {
 			case *ast.AssignStmt:
@@ -37,7 +76,7 @@ func newFieldEffects(p *core.Program) *fieldEffects {
 					}
 					if sel, ok := l.(*ast.SelectorExpr); ok {
 						if f := core.FieldOf(info, sel); f != nil {
-							if !ownValueField(info, sel) {
+							if !ownValueField(info, sel) && !freshLocal(sel) {
 								w[f] = true
 							}
 							lhs[sel] = true
